@@ -99,6 +99,8 @@ const (
 	c16Case1    = "c7a3b0f5-7a7c-4b7c-9b1a-0e1f8c6a7d15"
 )
 
+var c16LongLiteral = strings.Repeat("a long literal ", 10) // 150 characters inside an expression that is re-printed by the 13.3 migration
+
 var c16LongResult = "Result " + strings.Repeat("Name 123 ", 8)           // 79 ASCII characters
 var c16LongCategory = "Catégorie très très longue et encore plus longue" // 48 characters, multi-byte
 
@@ -109,10 +111,10 @@ func renderDef(d adef) []byte {
 	whVar := "@contact.name"
 	switch d.Wh {
 	case "old":
-		whText = "Result: @webhook.foo and @(upper(webhook.bar)) raw @webhook done @(webhook.list[0])"
+		whText = "Result: @webhook.foo and @(upper(webhook.bar)) raw @webhook done @(webhook.list[0]) @(\"" + c16LongLiteral + "\" & webhook.foo & \"q\\\"\\n\")"
 		whVar = "@webhook.foo"
 	case "new":
-		whText = "Result: @webhook.json.foo and @(upper(webhook.json.bar)) raw @webhook.json done @(webhook.json.list[0])"
+		whText = "Result: @webhook.json.foo and @(upper(webhook.json.bar)) raw @webhook.json done @(webhook.json.list[0]) @(\"" + c16LongLiteral + "\" & webhook.json.foo & \"q\\\"\\n\")"
 		whVar = "@webhook.json.foo"
 	}
 	act := M{"uuid": c16Act0, "type": "send_msg", "text": whText}
